@@ -2,7 +2,7 @@ import OpcuaModel.Model.CodecSplit
 /-
   Safety of the decoder model (C02).
 
-  `SafeDec d`: on every input state the decoder `d` returns a value, an error,
+  `SafeDec P d`: on every input state the decoder `d` returns a value, an error,
   or exceeds one of the two budgets (call depth `fuel`, allocation `env.limit`);
   it never panics and never diverges.
 
@@ -16,61 +16,72 @@ open Opcua
 
 def SafeF (f : Fail) : Prop := f = .err ∨ f = .depth ∨ f = .alloc
 
-def SafeRes {α : Type} : Res α → Prop
+/-- a set of tolerated failures contains at least the error return and the two budgets -/
+class Allowed (P : Fail → Prop) : Prop where
+  err : P .err
+  depth : P .depth
+  alloc : P .alloc
+
+instance : Allowed SafeF := ⟨Or.inl rfl, Or.inr (Or.inl rfl), Or.inr (Or.inr rfl)⟩
+
+def SafeRes {α : Type} (P : Fail → Prop) : Res α → Prop
   | .ok _ _ => True
-  | .fail f => SafeF f
+  | .fail f => P f
 
-def SafeDec {α : Type} (d : Dec α) : Prop := ∀ s, SafeRes (d s)
+/-- every failure of the decoder lies in `P` -/
+def SafeDec {α : Type} (P : Fail → Prop) (d : Dec α) : Prop := ∀ s, SafeRes P (d s)
 
-theorem safe_pure {α : Type} (a : α) : SafeDec (pure a : Dec α) := fun _ => trivial
-theorem safe_err {α : Type} : SafeDec (Dec.fail .err : Dec α) := fun _ => Or.inl rfl
-theorem safe_depth {α : Type} : SafeDec (Dec.fail .depth : Dec α) := fun _ => Or.inr (Or.inl rfl)
+variable {P : Fail → Prop} [hP : Allowed P]
+
+theorem safe_pure {α : Type} (a : α) : SafeDec P (pure a : Dec α) := fun _ => trivial
+theorem safe_err {α : Type} : SafeDec P (Dec.fail .err : Dec α) := fun _ => hP.err
+theorem safe_depth {α : Type} : SafeDec P (Dec.fail .depth : Dec α) := fun _ => hP.depth
 
 /-- bind, with the continuation only examined on results the first decoder can produce -/
-theorem safe_bind' {α β : Type} {d : Dec α} {f : α → Dec β} (s : St) (hd : SafeRes (d s))
-    (hf : ∀ a s', d s = .ok a s' → SafeRes (f a s')) : SafeRes ((d >>= f) s) := by
+theorem safe_bind' {α β : Type} {d : Dec α} {f : α → Dec β} (s : St) (hd : SafeRes P (d s))
+    (hf : ∀ a s', d s = .ok a s' → SafeRes P (f a s')) : SafeRes P ((d >>= f) s) := by
   simp only [Dec.bind_apply]
   cases h : d s with
   | ok a s' => exact hf a s' h
   | fail e => rw [h] at hd; exact hd
 
-theorem safe_bind {α β : Type} {d : Dec α} {f : α → Dec β} (hd : SafeDec d) (hf : ∀ a, SafeDec (f a)) :
-    SafeDec (d >>= f) := fun s => safe_bind' s (hd s) (fun a s' _ => hf a s')
+theorem safe_bind {α β : Type} {d : Dec α} {f : α → Dec β} (hd : SafeDec P d) (hf : ∀ a, SafeDec P (f a)) :
+    SafeDec P (d >>= f) := fun s => safe_bind' s (hd s) (fun a s' _ => hf a s')
 
-theorem safe_ite {α : Type} {c : Prop} [Decidable c] {a b : Dec α} (ha : SafeDec a) (hb : SafeDec b) :
-    SafeDec (if c then a else b) := by
+theorem safe_ite {α : Type} {c : Prop} [Decidable c] {a b : Dec α} (ha : SafeDec P a) (hb : SafeDec P b) :
+    SafeDec P (if c then a else b) := by
   split <;> assumption
 
-theorem safe_readN (n : Nat) : SafeDec (readN n) := by
+theorem safe_readN (n : Nat) : SafeDec P (readN n) := by
   intro s
   unfold readN
   split
   · trivial
-  · exact Or.inl rfl
+  · exact hP.err
 
-theorem safe_readUInt (w : Nat) : SafeDec (readUInt w) :=
+theorem safe_readUInt (w : Nat) : SafeDec P (readUInt w) :=
   safe_bind (safe_readN w) (fun _ => safe_pure _)
 
-theorem safe_readBytes : SafeDec readBytes :=
+theorem safe_readBytes : SafeDec P readBytes :=
   safe_bind (safe_readUInt 4) (fun _ => safe_ite (safe_pure _) (safe_bind (safe_readN _) (fun _ => safe_pure _)))
 
-theorem safe_readString : SafeDec readString := safe_bind safe_readBytes (fun _ => safe_pure _)
-theorem safe_readTime : SafeDec readTime := safe_bind (safe_readUInt 8) (fun _ => safe_pure _)
+theorem safe_readString : SafeDec P readString := safe_bind safe_readBytes (fun _ => safe_pure _)
+theorem safe_readTime : SafeDec P readTime := safe_bind (safe_readUInt 8) (fun _ => safe_pure _)
 
-theorem safe_request (env : Env) (n : Nat) : SafeDec (request env n) := by
+theorem safe_request (env : Env) (n : Nat) : SafeDec P (request env n) := by
   intro s
   unfold request
   split
   · trivial
   · split
-    · exact Or.inr (Or.inr rfl)
+    · exact hP.alloc
     · trivial
 
-theorem safe_optDec {α : Type} (c : Bool) {d : Dec α} (dflt : α) (hd : SafeDec d) : SafeDec (optDec c d dflt) := by
+theorem safe_optDec {α : Type} (c : Bool) {d : Dec α} (dflt : α) (hd : SafeDec P d) : SafeDec P (optDec c d dflt) := by
   unfold optDec
   exact safe_ite hd (safe_pure _)
 
-theorem safe_decElems {α : Type} {d : Dec α} (hd : SafeDec d) : ∀ n, SafeDec (decElems d n)
+theorem safe_decElems {α : Type} {d : Dec α} (hd : SafeDec P d) : ∀ n, SafeDec P (decElems d n)
   | 0 => safe_pure _
   | n + 1 => safe_bind hd (fun _ => safe_bind (safe_decElems hd n) (fun _ => safe_pure _))
 
@@ -93,15 +104,15 @@ theorem decElems_length {α : Type} {d : Dec α} : ∀ (n : Nat) (s s' : St) (vs
         cases h
         simp [ih s1 _ as h2]
 
-theorem safe_decFields {rec : Ty → Dec Val} (hr : ∀ t, SafeDec (rec t)) : ∀ ts, SafeDec (decFields rec ts)
+theorem safe_decFields {rec : Ty → Dec Val} (hr : ∀ t, SafeDec P (rec t)) : ∀ ts, SafeDec P (decFields rec ts)
   | [] => safe_pure _
   | t :: ts => safe_bind (hr t) (fun _ => safe_bind (safe_decFields hr ts) (fun _ => safe_pure _))
 
-theorem safe_decGuid : SafeDec decGuid :=
+theorem safe_decGuid : SafeDec P decGuid :=
   safe_bind (safe_readUInt 4) fun _ => safe_bind (safe_readUInt 2) fun _ => safe_bind (safe_readUInt 2) fun _ =>
     safe_bind (safe_readN 8) fun _ => safe_pure _
 
-theorem safe_decNodeId : SafeDec decNodeId := by
+theorem safe_decNodeId : SafeDec P decNodeId := by
   unfold decNodeId
   refine safe_bind (safe_readUInt 1) fun mask => ?_
   refine safe_ite (safe_bind (safe_readUInt 1) fun _ => safe_pure _) ?_
@@ -110,26 +121,26 @@ theorem safe_decNodeId : SafeDec decNodeId := by
   refine safe_ite (safe_bind (safe_readUInt 2) fun _ => safe_bind safe_decGuid fun _ => safe_pure _) ?_
   exact safe_ite (safe_bind (safe_readUInt 2) fun _ => safe_bind safe_readBytes fun _ => safe_pure _) safe_err
 
-theorem safe_decExpNodeId : SafeDec decExpNodeId :=
+theorem safe_decExpNodeId : SafeDec P decExpNodeId :=
   safe_bind safe_decNodeId fun _ => safe_bind (safe_optDec _ _ safe_readString) fun _ =>
     safe_bind (safe_optDec _ _ (safe_readUInt 4)) fun _ => safe_pure _
 
-theorem safe_decLocText : SafeDec decLocText :=
+theorem safe_decLocText : SafeDec P decLocText :=
   safe_bind (safe_readUInt 1) fun _ => safe_bind (safe_optDec _ _ safe_readString) fun _ =>
     safe_bind (safe_optDec _ _ safe_readString) fun _ => safe_pure _
 
-theorem safe_decDiagLevel : SafeDec decDiagLevel :=
+theorem safe_decDiagLevel : SafeDec P decDiagLevel :=
   safe_bind (safe_readUInt 1) fun _ => safe_bind (safe_optDec _ _ (safe_readUInt 4)) fun _ =>
   safe_bind (safe_optDec _ _ (safe_readUInt 4)) fun _ => safe_bind (safe_optDec _ _ (safe_readUInt 4)) fun _ =>
   safe_bind (safe_optDec _ _ (safe_readUInt 4)) fun _ => safe_bind (safe_optDec _ _ safe_readString) fun _ =>
   safe_bind (safe_optDec _ _ (safe_readUInt 4)) fun _ => safe_pure _
 
-theorem safe_decDiag : ∀ fuel, SafeDec (decDiag fuel)
+theorem safe_decDiag : ∀ fuel, SafeDec P (decDiag fuel)
   | 0 => safe_depth
   | fuel + 1 => safe_bind safe_decDiagLevel fun _ =>
       safe_ite (safe_bind (safe_decDiag fuel) fun _ => safe_pure _) (safe_pure _)
 
-theorem safe_decDims : ∀ n, SafeDec (decDims n)
+theorem safe_decDims : ∀ n, SafeDec P (decDims n)
   | 0 => safe_pure _
   | n + 1 => safe_bind (safe_readUInt 4) fun _ =>
       safe_ite safe_err (safe_bind (safe_decDims n) fun _ => safe_pure _)
@@ -162,7 +173,7 @@ theorem decDims_spec : ∀ (n : Nat) (s s' : St) (ds : List Nat), decDims n s = 
             split at hd <;> omega
           · exact hp x hx
 
-theorem safe_onBody {α : Type} (body : Bytes) {d : Dec α} (hd : SafeDec d) : SafeDec (onBody body d) := by
+theorem safe_onBody {α : Type} (body : Bytes) {d : Dec α} (hd : SafeDec P d) : SafeDec P (onBody body d) := by
   intro s
   unfold onBody
   have := hd ⟨body, s.alloc⟩
@@ -173,7 +184,7 @@ theorem safe_onBody {α : Type} (body : Bytes) {d : Dec α} (hd : SafeDec d) : S
 /-! ### `split` on an exactly matching dimension list -/
 
 theorem safe_splitLeaf (vals : List Val) (n : Bool) (i j : Nat) (h : i ≤ j ∧ j ≤ vals.length) :
-    SafeDec (splitLeaf vals n i j) := by
+    SafeDec P (splitLeaf vals n i j) := by
   intro s
   unfold splitLeaf
   have : ¬ (j < i ∨ vals.length < j) := by omega
@@ -182,11 +193,11 @@ theorem safe_splitLeaf (vals : List Val) (n : Bool) (i j : Nat) (h : i ≤ j ∧
 
 /-- the row loop: all rows lie inside `vals`; the result is non-empty when the range is -/
 theorem safe_splitLoop {f : Nat → Nat → Dec Val} {p len : Nat} (hp : 1 ≤ p)
-    (hf : ∀ a, a + p ≤ len → SafeDec (f a (a + p))) :
+    (hf : ∀ a, a + p ≤ len → SafeDec P (f a (a + p))) :
     ∀ (fuel k i : Nat) (s : St), i + k * p ≤ len → k ≤ fuel →
       match splitLoop f p fuel i (i + k * p) s with
       | .ok es _ => (k > 0 → es ≠ [])
-      | .fail e => SafeF e := by
+      | .fail e => P e := by
   intro fuel
   induction fuel with
   | zero =>
@@ -217,7 +228,7 @@ theorem safe_splitLoop {f : Nat → Nat → Dec Val} {p len : Nat} (hp : 1 ≤ p
 
 theorem safe_splitM (env : Env) (vals : List Val) (n : Bool) :
     ∀ (ds : List Nat) (i : Nat), ds ≠ [] → (∀ d ∈ ds, 1 ≤ d) → i + prodL ds ≤ vals.length →
-      SafeDec (splitM env vals n ds i (i + prodL ds)) := by
+      SafeDec P (splitM env vals n ds i (i + prodL ds)) := by
   intro ds
   induction ds with
   | nil => intro i h; exact absurd rfl h
@@ -231,12 +242,12 @@ theorem safe_splitM (env : Env) (vals : List Val) (n : Bool) :
       exact safe_splitLeaf vals n i _ ⟨by omega, hlen⟩
     | cons d' ds' =>
       have hp : 1 ≤ prodL (d' :: ds') := prodL_pos hpos'
-      have hP : prodL (d :: d' :: ds') = d * prodL (d' :: ds') := rfl
+      have hPd : prodL (d :: d' :: ds') = d * prodL (d' :: ds') := rfl
       have hvl : vals.length > 0 := by
         have : 1 ≤ prodL (d :: d' :: ds') := prodL_pos hpos
         omega
       have hstep : (i + prodL (d :: d' :: ds') - i) / d = prodL (d' :: ds') := by
-        rw [Nat.add_sub_cancel_left, hP]
+        rw [Nat.add_sub_cancel_left, hPd]
         exact Nat.mul_div_cancel_left _ (by omega)
       intro s
       rw [splitM]
@@ -247,9 +258,9 @@ theorem safe_splitM (env : Env) (vals : List Val) (n : Bool) :
       intro _ s1 _
       have hloop := safe_splitLoop (f := fun a b => splitM env vals n (d' :: ds') a b) (p := prodL (d' :: ds'))
         (len := vals.length) hp (fun a ha => ih a (by simp) hpos' ha)
-        (i + prodL (d :: d' :: ds') - i) d i s1 (by rw [hP] at hlen; exact hlen)
-        (by rw [Nat.add_sub_cancel_left, hP]; exact Nat.le_mul_of_pos_right _ (by omega))
-      have hj : i + prodL (d :: d' :: ds') = i + d * prodL (d' :: ds') := by rw [hP]
+        (i + prodL (d :: d' :: ds') - i) d i s1 (by rw [hPd] at hlen; exact hlen)
+        (by rw [Nat.add_sub_cancel_left, hPd]; exact Nat.le_mul_of_pos_right _ (by omega))
+      have hj : i + prodL (d :: d' :: ds') = i + d * prodL (d' :: ds') := by rw [hPd]
       rw [hj]
       rw [hj] at hloop
       simp only [Dec.bind_apply]
@@ -269,7 +280,7 @@ theorem safe_splitM (env : Env) (vals : List Val) (n : Bool) :
 
 /-! ### the composite decoders -/
 
-theorem safe_decVarValue {rec : Ty → Dec Val} (hr : ∀ t, SafeDec (rec t)) (tid : Nat) : SafeDec (decVarValue rec tid) := by
+theorem safe_decVarValue {rec : Ty → Dec Val} (hr : ∀ t, SafeDec P (rec t)) (tid : Nat) : SafeDec P (decVarValue rec tid) := by
   unfold decVarValue
   split
   · exact safe_bind safe_readBytes fun _ => safe_pure _
@@ -277,13 +288,13 @@ theorem safe_decVarValue {rec : Ty → Dec Val} (hr : ∀ t, SafeDec (rec t)) (t
     · exact hr _
     · exact safe_pure _
 
-theorem safe_decDataValue {d : Dec Val} (hd : SafeDec d) : SafeDec (decDataValue d) :=
+theorem safe_decDataValue {d : Dec Val} (hd : SafeDec P d) : SafeDec P (decDataValue d) :=
   safe_bind (safe_readUInt 1) fun _ => safe_bind (safe_optDec _ _ hd) fun _ =>
   safe_bind (safe_optDec _ _ (safe_readUInt 4)) fun _ => safe_bind (safe_optDec _ _ safe_readTime) fun _ =>
   safe_bind (safe_optDec _ _ (safe_readUInt 2)) fun _ => safe_bind (safe_optDec _ _ safe_readTime) fun _ =>
   safe_bind (safe_optDec _ _ (safe_readUInt 2)) fun _ => safe_pure _
 
-theorem safe_decExtObj (env : Env) {rec : Ty → Dec Val} (hr : ∀ t, SafeDec (rec t)) : SafeDec (decExtObj env rec) := by
+theorem safe_decExtObj (env : Env) {rec : Ty → Dec Val} (hr : ∀ t, SafeDec P (rec t)) : SafeDec P (decExtObj env rec) := by
   unfold decExtObj
   refine safe_bind safe_decExpNodeId fun tid => safe_bind (safe_readUInt 1) fun mask => ?_
   refine safe_ite (safe_pure _) (safe_bind (safe_readUInt 4) fun len => ?_)
@@ -293,17 +304,17 @@ theorem safe_decExtObj (env : Env) {rec : Ty → Dec Val} (hr : ∀ t, SafeDec (
   · exact safe_pure _
   · exact safe_bind (safe_onBody _ (hr _)) fun _ => safe_pure _
 
-theorem safe_decSlice (env : Env) {d : Dec Val} (hd : SafeDec d) : SafeDec (decSlice env d) := by
+theorem safe_decSlice (env : Env) {d : Dec Val} (hd : SafeDec P d) : SafeDec P (decSlice env d) := by
   unfold decSlice
   refine safe_bind (safe_readUInt 4) fun n => safe_ite (safe_pure _) (safe_ite safe_err ?_)
   exact safe_bind (safe_request env n) fun _ => safe_bind (safe_decElems hd n) fun _ => safe_pure _
 
-theorem safe_decByteSlice : SafeDec decByteSlice := by
+theorem safe_decByteSlice : SafeDec P decByteSlice := by
   unfold decByteSlice
   refine safe_bind (safe_readUInt 4) fun n => safe_ite (safe_pure _) (safe_ite safe_err ?_)
   exact safe_bind (safe_readN n) fun _ => safe_pure _
 
-theorem safe_decVarElems (env : Env) {d : Dec Val} (hd : SafeDec d) (n : Int) : SafeDec (decVarElems env d n) := by
+theorem safe_decVarElems (env : Env) {d : Dec Val} (hd : SafeDec P d) (n : Int) : SafeDec P (decVarElems env d n) := by
   unfold decVarElems
   exact safe_ite (safe_pure _) (safe_bind (safe_request env _) fun _ => safe_decElems hd _)
 
@@ -318,7 +329,7 @@ theorem decVarElems_length (env : Env) {d : Dec Val} (n : Int) (hn : 0 ≤ n) (s
     simp only [h1] at h
     exact decElems_length _ _ _ _ h
 
-theorem safe_decDimList (env : Env) (dl : Nat) : SafeDec (decDimList env dl) :=
+theorem safe_decDimList (env : Env) (dl : Nat) : SafeDec P (decDimList env dl) :=
   safe_bind (safe_request env dl) fun _ => safe_bind (safe_decDims dl) fun _ => safe_pure _
 
 theorem decDimList_spec (env : Env) (dl : Nat) (s s' : St) (r : Option (List Nat)) (h : decDimList env dl s = .ok r s') :
@@ -338,7 +349,7 @@ theorem decDimList_spec (env : Env) (dl : Nat) (s s' : St) (r : Option (List Nat
 
 /-- `Variant.Decode` with both repairs is safe -/
 theorem safe_decVariant (env : Env) (h1 : env.fixNegLen = true) (h2 : env.fixDims = true)
-    {rec : Ty → Dec Val} (hr : ∀ t, SafeDec (rec t)) : SafeDec (decVariant env rec) := by
+    {rec : Ty → Dec Val} (hr : ∀ t, SafeDec P (rec t)) : SafeDec P (decVariant env rec) := by
   unfold decVariant
   refine safe_bind (safe_readUInt 1) fun mask => ?_
   refine safe_ite (safe_pure _) (safe_ite safe_err (safe_ite (safe_bind (safe_decVarValue hr _) fun _ => safe_pure _) ?_))
@@ -389,16 +400,16 @@ theorem safe_decVariant (env : Env) (h1 : env.fixNegLen = true) (h2 : env.fixDim
           have hvl : vals.length = (toInt32 alen).toNat := decVarElems_length env _ (Int.not_lt.mp hnn) s s1 vals hvals
           have hne : ds ≠ [] := by
             intro he; rw [he] at hlen; simp at hlen; omega
-          have hP : prodL ds = vals.length := by
+          have hPL : prodL ds = vals.length := by
             rw [hvl, ← prodNat_eq]; exact hprod
-          have := safe_splitM env vals (decide (toInt32 alen = -1)) ds 0 hne hge (by omega)
-          rw [Nat.zero_add, hP] at this
+          have := safe_splitM (P := P) env vals (decide (toInt32 alen = -1)) ds 0 hne hge (by omega)
+          rw [Nat.zero_add, hPL] at this
           exact this s3
 
 /-- **Safety of the repaired decoder.**  With both repairs every decoder of the model returns a value or an
     error, or exceeds the depth / allocation budget: no panic, no divergence, for every type and every input. -/
 theorem decode_safe (env : Env) (h1 : env.fixNegLen = true) (h2 : env.fixDims = true) :
-    ∀ (fuel : Nat) (t : Ty), SafeDec (decode env fuel t) := by
+    ∀ (fuel : Nat) (t : Ty), SafeDec SafeF (decode env fuel t) := by
   intro fuel
   induction fuel with
   | zero => intro t; exact safe_depth
@@ -422,6 +433,91 @@ theorem decode_safe (env : Env) (h1 : env.fixNegLen = true) (h2 : env.fixDims = 
     | diag => exact safe_bind (safe_decDiag (n + 1)) fun _ => safe_pure _
     | dataValue => exact safe_decDataValue (ih .variant)
     | variant => exact safe_decVariant env h1 h2 ih
+    | extObj => exact safe_decExtObj env ih
+
+/-! ### the unchanged decoder: which failures can occur at all -/
+
+/-- the failures the unchanged decoder can produce: the tolerated ones plus the four outcomes of the two defects -/
+def DecoderFail (f : Fail) : Prop :=
+  f = .err ∨ f = .depth ∨ f = .alloc ∨ f = .panicNegLen ∨ f = .panicSlice ∨ f = .panicIndex ∨ f = .diverge
+
+instance : Allowed DecoderFail := ⟨Or.inl rfl, Or.inr (Or.inl rfl), Or.inr (Or.inr (Or.inl rfl))⟩
+
+theorem any_splitLoop {f : Nat → Nat → Dec Val} (hf : ∀ a b, SafeDec DecoderFail (f a b)) (p : Nat) :
+    ∀ fuel i j, SafeDec DecoderFail (splitLoop f p fuel i j)
+  | 0, _, _ => safe_pure _
+  | k + 1, i, j => by
+    unfold splitLoop
+    exact safe_ite (safe_bind (hf _ _) fun _ => safe_bind (any_splitLoop hf p k _ _) fun _ => safe_pure _) (safe_pure _)
+
+theorem any_splitLeaf (vals : List Val) (n : Bool) (i j : Nat) : SafeDec DecoderFail (splitLeaf vals n i j) := by
+  unfold splitLeaf
+  exact safe_ite (fun _ => Or.inr (Or.inr (Or.inr (Or.inr (Or.inl rfl))))) (safe_pure _)
+
+theorem any_splitM (env : Env) (vals : List Val) (n : Bool) :
+    ∀ (ds : List Nat) (i j : Nat), SafeDec DecoderFail (splitM env vals n ds i j) := by
+  intro ds
+  induction ds with
+  | nil => intro i j; simp only [splitM]; exact any_splitLeaf vals n i j
+  | cons d ds ih =>
+    intro i j
+    cases ds with
+    | nil => simp only [splitM]; exact any_splitLeaf vals n i j
+    | cons d' ds' =>
+      have hdiv : SafeDec DecoderFail (Dec.fail .diverge : Dec Val) :=
+        fun _ => Or.inr (Or.inr (Or.inr (Or.inr (Or.inr (Or.inr rfl)))))
+      have hidx : ∀ {α : Type}, SafeDec DecoderFail (Dec.fail .panicIndex : Dec α) :=
+        fun _ => Or.inr (Or.inr (Or.inr (Or.inr (Or.inr (Or.inl rfl)))))
+      rw [splitM]
+      refine safe_ite ?_ ?_
+      · refine safe_ite (safe_ite (safe_bind (ih _ _) fun _ => hdiv) hidx) ?_
+        refine safe_bind (safe_request env _) fun _ => safe_bind (any_splitLoop (fun a b => ih a b) _ _ _ _) fun es => ?_
+        exact safe_ite hidx (safe_pure _)
+      · refine safe_bind (safe_request env _) fun _ => safe_bind (safe_decElems (ih 0 0) d) fun es => ?_
+        exact safe_ite hidx (safe_pure _)
+
+theorem any_decVariant (env : Env) {rec : Ty → Dec Val} (hr : ∀ t, SafeDec DecoderFail (rec t)) :
+    SafeDec DecoderFail (decVariant env rec) := by
+  unfold decVariant
+  refine safe_bind (safe_readUInt 1) fun mask => ?_
+  refine safe_ite (safe_pure _) (safe_ite safe_err (safe_ite (safe_bind (safe_decVarValue hr _) fun _ => safe_pure _) ?_))
+  refine safe_bind (safe_readUInt 4) fun alen => safe_ite safe_err (safe_ite ?_ ?_)
+  · intro _
+    split
+    · exact Or.inl rfl
+    · exact Or.inr (Or.inr (Or.inr (Or.inl rfl)))
+  · refine safe_bind (safe_decVarElems env (safe_decVarValue hr _) _) fun vals => ?_
+    refine safe_bind (safe_optDec _ _ (safe_readUInt 4)) fun dl => safe_ite safe_err ?_
+    refine safe_bind (safe_optDec _ _ (safe_decDimList env dl)) fun dims => safe_ite safe_err (safe_ite (safe_pure _) ?_)
+    exact safe_bind (any_splitM env vals _ _ _ _) fun _ => safe_pure _
+
+/-- **Which failures the unchanged decoder has.**  For every environment (repaired or not), type and input the
+    decoder model returns a value, an error, a budget failure, or one of the four outcomes of the two Variant
+    defects — never a nil dereference, never an ill-typed access. -/
+theorem decode_covered (env : Env) : ∀ (fuel : Nat) (t : Ty), SafeDec DecoderFail (decode env fuel t) := by
+  intro fuel
+  induction fuel with
+  | zero => intro t; exact safe_depth
+  | succ n ih =>
+    intro t
+    cases t with
+    | bool => exact safe_bind (safe_readUInt 1) fun _ => safe_pure _
+    | int w => exact safe_bind (safe_readUInt w) fun _ => safe_pure _
+    | f32 => exact safe_bind (safe_readUInt 4) fun _ => safe_pure _
+    | f64 => exact safe_bind (safe_readUInt 8) fun _ => safe_pure _
+    | string => exact safe_bind safe_readString fun _ => safe_pure _
+    | time => exact safe_bind safe_readTime fun _ => safe_pure _
+    | bytes => exact safe_decByteSlice
+    | slice e => exact safe_decSlice env (ih e)
+    | ptr e => exact safe_bind (ih e) fun _ => safe_pure _
+    | struct fs => exact safe_bind (safe_decFields ih fs) fun _ => safe_pure _
+    | guid => exact safe_bind safe_decGuid fun _ => safe_pure _
+    | nodeId => exact safe_bind safe_decNodeId fun _ => safe_pure _
+    | expNodeId => exact safe_bind safe_decExpNodeId fun _ => safe_pure _
+    | locText => exact safe_bind safe_decLocText fun _ => safe_pure _
+    | diag => exact safe_bind (safe_decDiag (n + 1)) fun _ => safe_pure _
+    | dataValue => exact safe_decDataValue (ih .variant)
+    | variant => exact any_decVariant env ih
     | extObj => exact safe_decExtObj env ih
 
 end Opcua.Codec
